@@ -144,6 +144,85 @@ SITES = {
   ("single_move_resolved_by_legal_move_lookup", "internal/openingbook/openingbook.go", r"func \(b \*Book\) processSingleMove\(",
    [r"GetMoveFromUci\(posPtr, s\)", r"GetMoveFromSan\(posPtr, s\)", r"if !move\.IsValid\(\)\s*\{\s*return errors\.New", r"curPosKey := uint64\(posPtr\.ZobristKey\(\)\)\s*posPtr\.DoMove\(move\)\s*nextPosKey := uint64\(posPtr\.ZobristKey\(\)\)\s*b\.addToBook\(curPosKey, nextPosKey, uint32\(move\)\)"], []),
  ],
+ # ---------------- C13: search limits (statements that TimeCtl.v transcribes and that no hook can feed from outside).
+ # A signature that starts with (?s)\A(?=...) also constrains the whole file: the number of occurrences of a
+ # statement in the file is part of the site (the body patterns only see one function).
+ "C13": [
+  # extra time after a book move: TimeCtl.deadline / add_extra_time / extra_clock
+  ("extra_time_reset_before_limits_are_set", "internal/search/search.go", r"func \(s \*Search\) run\(",
+   [r"s\.setTimeLimit\(0\)\s*s\.setExtraTime\(0\)", r"s\.setupSearchLimits\(position, sl\)", r"s\.startTimer\(\)",
+    r"if bookMove == MoveNone\s*\{\s*searchResult = s\.iterativeDeepening\(position\)\s*\}\s*else\s*\{\s*searchResult = &Result\{BestMove: bookMove, BookMove: true\}\s*s\.hadBookMove = true\s*\}"],
+   [r"addExtraTime\(", r"s\.hadBookMove = true.*s\.hadBookMove = true"]),
+  ("limits_set_budget_and_zero_extra_time", "internal/search/search.go", r"func \(s \*Search\) setupSearchLimits\(",
+   [r"if sl\.TimeControl\s*\{\s*s\.setTimeLimit\(s\.setupTimeControl\(position, sl\)\)\s*s\.setExtraTime\(0\)"],
+   [r"addExtraTime\(", r"setTimeLimit\(.*setTimeLimit\(", r"setExtraTime\(.*setExtraTime\("]),
+  # exactly one call of addExtraTime in search.go (whole-file count in the signature), none in alphabeta.go
+  ("extra_time_only_after_book_move", "internal/search/search.go",
+   r"(?s)\A(?=(?:(?!s\.addExtraTime\().)*s\.addExtraTime\((?:(?!s\.addExtraTime\().)*\Z).*?func \(s \*Search\) iterativeDeepening\(",
+   [r"if s\.rootMoves\.Len\(\) == 0\s*\{",
+    r"if s\.hadBookMove && s\.searchLimits\.TimeControl && s\.searchLimits\.MoveTime == 0\s*\{\s*(?:s\.log\.Debugf\([^{};]*\)\s*)?s\.addExtraTime\(2\.0\)\s*s\.hadBookMove = false\s*\}",
+    r"for iterationDepth := 0;"],
+   [r"addExtraTime\(.*addExtraTime\(", r"s\.hadBookMove = true", r"setExtraTime\(", r"setTimeLimit\("]),
+  ("no_extra_time_inside_the_tree", "internal/search/alphabeta.go",
+   r"(?s)\A(?!.*(?:addExtraTime|setExtraTime|setTimeLimit)\().*?func \(s \*Search\) rootSearch\(",
+   [r"for i, m := range \*s\.rootMoves"], []),
+  ("extra_time_capped_by_movers_clock", "internal/search/search.go", r"func \(s \*Search\) addExtraTime\(f float64\)",
+   [r"if s\.searchLimits\.TimeControl && s\.searchLimits\.MoveTime == 0\s*\{",
+    r"duration := time\.Duration\(int64\(\(f - 1\.0\) \* float64\(s\.timeLimit\.Nanoseconds\(\)\)\)\)",
+    r"clock := s\.searchLimits\.WhiteTime\s*if s\.currentPosition\.NextPlayer\(\) == Black\s*\{\s*clock = s\.searchLimits\.BlackTime\s*\}",
+    r"if s\.timeLimit\+s\.extraTime\+duration > clock\s*\{\s*duration = clock - s\.timeLimit - s\.extraTime\s*\}",
+    r"s\.setExtraTime\(s\.extraTime \+ duration\)"],
+   [r"setTimeLimit\(", r"setExtraTime\(.*setExtraTime\("]),
+  # depth loop: TimeCtl.max_depth / id_loop / iterations
+  ("depth_loop", "internal/search/search.go", r"func \(s \*Search\) iterativeDeepening\(",
+   [r"if s\.rootMoves\.Len\(\) == 0\s*\{",
+    r"maxDepth := MaxDepth\s*if s\.searchLimits\.Depth > 0\s*\{\s*maxDepth = s\.searchLimits\.Depth\s*\}",
+    r"for iterationDepth := 0; iterationDepth < maxDepth;\s*\{\s*iterationDepth\+\+",
+    r"s\.rootSearch\(position, iterationDepth, alpha, beta\)",
+    r"if !s\.stopConditions\(\) && s\.rootMoves\.Len\(\) > 1\s*\{",
+    r"\}\s*else\s*\{\s*break\s*\}\s*\}",
+    r"SearchDepth:\s*s\.statistics\.CurrentIterationDepth,"],
+   [r"\bbreak\b.*\bbreak\b", r"\bgoto\b", r"iterationDepth\+\+.*iterationDepth\+\+", r"iterationDepth\s*(?:=[^=]|\+=|-=|--)", r"maxDepth\s*(?:\+\+|\+=|-=|--)",
+    r"maxDepth = .*maxDepth = "]),
+  # searchmoves: TimeCtl.listed / filter_root
+  ("searchmoves_filter", "internal/search/search.go", r"func \(s \*Search\) iterativeDeepening\(",
+   [r"if s\.rootMoves\.Len\(\) == 0\s*\{",
+    r"if s\.searchLimits\.Moves\.Len\(\) > 0\s*\{",
+    r"listed := func\(m Move\) bool\s*\{\s*for _, lm := range s\.searchLimits\.Moves\s*\{\s*if lm\.MoveOf\(\) == m\.MoveOf\(\)\s*\{\s*return true\s*\}\s*\}\s*return false\s*\}",
+    r"anyListed := false\s*for _, m := range \*s\.rootMoves\s*\{\s*anyListed = anyListed \|\| listed\(m\)\s*\}",
+    r"if anyListed\s*\{\s*s\.rootMoves\.Filter\(func\(i int\) bool\s*\{\s*return listed\(s\.rootMoves\.At\(i\)\)\s*\}\)\s*\}\s*\}",
+    r"for iterationDepth := 0;"],
+   [r"rootMoves\.Filter\(.*rootMoves\.Filter\(", r"s\.rootMoves = .*s\.rootMoves = "]),
+  ("searchmoves_filter_keeps_accepted_in_order", "internal/moveslice/moveslice.go", r"func \(ms \*MoveSlice\) Filter\(f func\(index int\) bool\)",
+   [r"b := \(\*ms\)\[:0\]\s*for i, x := range \*ms\s*\{\s*if f\(i\)\s*\{\s*b = append\(b, x\)\s*\}\s*\}\s*\*ms = b"], []),
+  # node counter: TimeCtl.rrun / srun / qrun ("incremented at exactly five places", a stop check after every child)
+  ("node_counter_once_per_iteration", "internal/search/search.go",
+   r"(?s)\A(?=(?:(?!nodesVisited\s*(?:\+\+|\+=)).)*nodesVisited\+\+(?:(?!nodesVisited\s*(?:\+\+|\+=)).)*\Z).*?func \(s \*Search\) iterativeDeepening\(",
+   [r"for iterationDepth := 0; iterationDepth < maxDepth;\s*\{\s*iterationDepth\+\+\s*s\.nodesVisited\+\+", r"s\.rootSearch\("], []),
+  ("node_counter_four_places_in_the_tree", "internal/search/alphabeta.go",
+   r"(?s)\A(?=(?:(?:(?!nodesVisited\s*(?:\+\+|\+=)).)*nodesVisited\+\+){4}(?:(?!nodesVisited\s*(?:\+\+|\+=)).)*\Z).*?func \(s \*Search\) rootSearch\(",
+   [r"for i, m := range \*s\.rootMoves\s*\{\s*p\.DoMove\(m\)\s*s\.nodesVisited\+\+", r"p\.UndoMove\(\)\s*if s\.stopConditions\(\) && depth > 1\s*\{\s*return"],
+   [r"nodesVisited\+\+.*nodesVisited\+\+"]),
+  ("node_counter_search_null_move_and_move", "internal/search/alphabeta.go", r"func \(s \*Search\) search\(",
+   [r"s\.pv\[ply\]\.Clear\(\)\s*if s\.stopConditions\(\)\s*\{\s*return ValueNA\s*\}",
+    r"p\.DoNullMove\(\)\s*s\.nodesVisited\+\+\s*nValue := -s\.search\(p, newDepth, ply\+1, -beta, -beta\+1, false, false\)\s*p\.UndoNullMove\(\)\s*if s\.stopConditions\(\)\s*\{\s*return ValueNA",
+    r"s\.search\(p, newDepth, ply, alpha, beta, isPV, true\)\s*s\.statistics\.IIDsearches\+\+\s*if s\.stopConditions\(\)\s*\{\s*return ValueNA",
+    r"p\.DoMove\(move\)\s*if !p\.WasLegalMove\(\)\s*\{\s*p\.UndoMove\(\)\s*continue\s*\}\s*s\.nodesVisited\+\+",
+    r"if value > alpha && !s\.stopConditions\(\)\s*\{",
+    r"p\.UndoMove\(\)\s*if s\.stopConditions\(\)\s*\{\s*return ValueNA"],
+   [r"nodesVisited\+\+.*nodesVisited\+\+.*nodesVisited\+\+"]),
+  ("node_counter_qsearch_move", "internal/search/alphabeta.go", r"func \(s \*Search\) qsearch\(",
+   [r"p\.DoMove\(move\)\s*if !p\.WasLegalMove\(\)\s*\{\s*p\.UndoMove\(\)\s*continue\s*\}\s*s\.nodesVisited\+\+",
+    r"value = -s\.qsearch\(p, ply\+1, -beta, -alpha, isPV\)",
+    r"p\.UndoMove\(\)\s*if s\.stopConditions\(\)\s*\{\s*return ValueNA"],
+   [r"nodesVisited\+\+.*nodesVisited\+\+"]),
+  # timer: TimeCtl.timer_fire / poll_period (the C14 list has the same loop for the token discipline)
+  ("timer_poll_5ms", "internal/search/search.go", r"func \(s \*Search\) startTimer\(",
+   [r"timerStart := time\.Now\(\)",
+    r"for time\.Since\(timerStart\) < s\.loadTimeLimit\(\)\+s\.loadExtraTime\(\) && !stop\.Load\(\)\s*\{\s*time\.Sleep\(5 \* time\.Millisecond\)\s*\}",
+    r"\}\s*else\s*\{[^{}]*stop\.Store\(true\)\s*\}"],
+   [r"time\.Sleep\(.*time\.Sleep\(", r"timerStart = "]),
+ ],
 }
 
 
